@@ -378,9 +378,11 @@ def witness_main(argv):
     mod = importlib.import_module("checks." + pid)
     if hasattr(mod, "init_worker"):
         mod.init_worker(None)
-    set_strict(True)
     res = []
     for e in FINDINGS.for_property(pid):
+        # an open finding's witness is replayed with every relaxation off (it must still fail);
+        # a fixed finding's witness is an ordinary regression case: other open findings keep their relaxations
+        set_strict(e["status"] == "open")
         for w in e.get("witnesses", {}).get(pid, []):
             try:
                 with watchdog(60):
